@@ -33,6 +33,7 @@ Statements:
   ["latch", mem, value, set, reset, "sr"|"rs"]
   ["place", name, proto, x, y, props|None]        Entity name = place(...)
   ["set", ent, prop, expr]                        ent.prop = expr
+  ["ent", name, call]                             Entity name = f(...);   (entity-returning function)
   ["func", name, [[ptype, pname]...], body, ret|None]
   ["for", it, ["range", a, b, step|None] | ["list", [ints]], body]
   ["import", path]
@@ -246,6 +247,8 @@ class Printer:
                 emit("place(%s);" % args)
             else:
                 emit("Entity %s = place(%s);" % (name, args), name)
+        elif k == "ent":
+            emit("Entity %s = %s;" % (s[1], self.expr(s[2], 0)), s[1])
         elif k == "set":
             emit("%s.%s = %s;" % (s[1], s[2], self.expr(s[3], 0)))
         elif k == "func":
@@ -608,6 +611,9 @@ class Interp:
                                   "y": yv.value if fixed else None, "props": props or {}, "top": len(self.scopes) == 1})
             if name is not None:
                 self.define(name, Val("ent", ent=eid))
+        elif k == "ent":
+            v = self.ev(s[2])
+            self.define(s[1], v)
         elif k == "set":
             ent = self.lookup(s[1])
             v = self.ev(s[3])
@@ -628,9 +634,10 @@ class Interp:
                     self.scopes.pop()
         elif k == "import":
             path = s[1]
-            if path in self._imported:
+            key = id(self.files[path]) if path in self.files else path   # two spellings of one file
+            if key in self._imported:
                 return
-            self._imported.add(path)
+            self._imported.add(key)
             for b in self.files.get(path, []):
                 self.stmt(b)
         elif k == "expr":
